@@ -6,9 +6,9 @@
    block requests written to the peer.  The monitor adopts the logged state and demands of every step what
    C20 demands:
      - a received block whose parent the chain knows is in the chain afterwards, with the early confirms;
-     - otherwise it is in the cache afterwards, the cache still sorted, nothing else dropped, parent requested;
-     - a timer drain moves exactly the cached blocks whose parent is known into the chain;
-     - an early confirm stays cached until its block arrives, then it is stored with the block;
+     - otherwise it is kept (cache, sorted) until its parent has arrived, nothing else dropped, parent requested;
+     - blocks enter the chain only when delivered or from the cache; after a timer drain no cached block has a known parent;
+     - an early confirm stays cached until its block arrives, then it is stored with the block (unless it had enough);
      - a received batch leaves every valid transaction pending exactly once;
      - the chain stays linear, the stable block only moves forward and is the highest block with 2 of 3 signers;
      - when nothing is in flight and no cached block is insertable, (current, stable) are those of the in-order
@@ -42,18 +42,26 @@ ApiOK(e) == LET s == SlotsOf(e) IN                                 \* Size / Fir
     /\ e.bsize = SizeOf(s) /\ e.first = FirstHeight(s)
     /\ [i \in DOMAIN e.iter |-> HeightOf(e.iter[i])] = IterHeights(s) /\ ToSet(e.iter) = Content(s)
     /\ e.ccsize = Len(e.cc)
-\* nothing that waits in the cache is dropped: it is still cached or it is in the chain now; nothing is invented
-Kept(e, added) == /\ \A b \in (Content(slots) \cup added) : b \in Content(SlotsOf(e)) \/ HeightOf(b) \in HasOf(e) \/ HeightOf(b) \in lost
-                  /\ Content(SlotsOf(e)) \subseteq Content(slots) \cup added
-                  /\ (Sorted(slots) => Sorted(SlotsOf(e)))
-\* confirm cache: a confirm is cached exactly while its block is not in the chain
+\* The manager's queue timer is autonomous: besides the message's own effect, any logged state may already contain
+\* the effect of timer drains (cached blocks whose parent became known moved into the chain).  Every relation below
+\* is therefore stated so that it also holds with such drains folded in.
+\* -- blocks enter the chain only by being delivered now or by having waited in the cache
+NewOK(e, delivered) == \A h \in HasOf(e) \ has : h = delivered \/ Bid(h) \in Content(slots)
+\* -- nothing that waits in the cache is dropped: it is still cached or it is in the chain now; nothing is invented;
+\*    the cache stays sorted.  `base` is the cache content the step starts from (plus the block it caches).
+KeptL(e, base, lst) == /\ \A b \in base : b \in Content(SlotsOf(e)) \/ HeightOf(b) \in HasOf(e) \/ HeightOf(b) \in lst
+                       /\ Content(SlotsOf(e)) \subseteq base
+Kept(e, added) == KeptL(e, Content(slots) \cup added, lost) /\ (Sorted(slots) => Sorted(SlotsOf(e)))
+\* -- confirm cache: a confirm is cached exactly while its block is not in the chain
 CcRel(e, added) == \A h \in 1..nb, d \in 0..ND :
     CountIn(e.cc, <<h, d>>) = IF h \in HasOf(e) THEN 0 ELSE CountIn(cc, <<h, d>>) + (IF added = <<h, d>> THEN 1 ELSE 0)
-\* signers stored with the blocks: a new block carries exactly the early confirms; old blocks are untouched except by conf
+\* -- signers stored with the blocks: nothing invented, nothing removed, and a confirm that was received for a block
+\*    in the chain is with the block unless the block had enough signers without it
 SigRel(e, conf) == \A h \in HasOf(e) :
-    SigsOf(e)[h] = IF h \notin has THEN {d \in 0..ND : CountIn(cc, <<h, d>>) > 0}
-                   ELSE IF conf # <<>> /\ conf[1] = h /\ ~Enough(sigs[h], h) THEN sigs[h] \cup {conf[2]}
-                   ELSE sigs[h]
+    LET old == IF h \in has THEN sigs[h] ELSE {}
+        avail == old \cup {d \in 0..ND : CountIn(cc, <<h, d>>) > 0} \cup (IF conf # <<>> /\ conf[1] = h THEN {conf[2]} ELSE {})
+        new == SigsOf(e)[h]
+    IN old \subseteq new /\ new \subseteq avail /\ (new = avail \/ Enough(new, h))
 NoInsertable(e) == \A b \in Content(SlotsOf(e)) : ~Known(HasOf(e), HeightOf(b) - 1)
 AllDelivered(f) == \A m \in DOMAIN f : f[m] = 0
 Converges(e, f, lst) == (AllDelivered(f) /\ NoInsertable(e) /\ lst = {}) => e.cur = ref[1] /\ e.stable = ref[2]
@@ -74,42 +82,43 @@ TReset == /\ Ev("reset")
           /\ has' = {} /\ stable' = 0 /\ sigs' = [h \in 1..E.nb |-> {}] /\ slots' = <<>> /\ cc' = <<>> /\ pool' = <<>>
 
 Take(m) == m \in DOMAIN infl /\ infl[m] > 0 /\ infl' = [infl EXCEPT ![m] = @ - 1]
+HeightsSeq(s) == [i \in DOMAIN s |-> s[i].h]
+IsSuffix(s, t) == Len(s) <= Len(t) /\ s = SubSeq(t, Len(t) - Len(s) + 1, Len(t))
 
 \* ---- a block arrives
-AddNormal(e, b) == IF Sorted(slots) THEN Sorted(SlotsOf(e)) /\ Content(SlotsOf(e)) = Content(slots) \cup {b}
-                   ELSE SlotsOf(e) = AddOK(slots, b)               \* (a layout already corrupted by the deviation)
 TBlock == /\ Ev("Deliver") /\ E.a[1][1] = "B"
           /\ LET h == E.a[1][2]  b == Bid(E.a[1][2]) IN
              /\ Take(E.a[1]) /\ UNCHANGED seenT
-             /\ E.pool = pool
+             /\ E.pool = pool /\ SigRel(E, <<>>) /\ CcRel(E, <<>>)
              /\ IF h \in has \/ h <= stable                        \* stale: nothing happens
-                THEN /\ HasOf(E) = has /\ SigRel(E, <<>>) /\ Kept(E, {}) /\ CcRel(E, <<>>) /\ lost' = lost
+                THEN NewOK(E, 0) /\ Kept(E, {}) /\ lost' = lost
                 ELSE IF Known(has, h - 1)                          \* parent known: it is in the chain now, with the early confirms
-                THEN /\ HasOf(E) = has \cup {h} /\ SigRel(E, <<>>) /\ Kept(E, {}) /\ CcRel(E, <<>>) /\ lost' = lost
-                ELSE /\ HasOf(E) = has /\ SigRel(E, <<>>) /\ CcRel(E, <<>>)   \* parent unknown: cached, parent requested
-                     /\ <<h - 1, h - 1>> \in ToSet(E.reqs)
-                     /\ \/ AddNormal(E, b) /\ lost' = lost
-                        \/ /\ "Dev_CacheAddMiddle" \in AllowedDev /\ ~AddNormal(E, b)
-                           /\ IsMiddleNew(slots, b) /\ SlotsOf(E) = AddDev(slots, b)
-                           /\ lost' = lost \cup {HeightOf(x) : x \in (Content(slots) \cup {b}) \ Content(SlotsOf(E))}
+                THEN h \in HasOf(E) /\ NewOK(E, h) /\ Kept(E, {}) /\ lost' = lost
+                ELSE /\ NewOK(E, h)                                \* parent unknown: cached (kept until the parent arrives), parent requested
+                     /\ (E.path = "cache" => <<h - 1, h - 1>> \in ToSet(E.reqs))
+                     /\ \/ Kept(E, {b}) /\ lost' = lost
+                        \/ /\ "Dev_CacheAddMiddle" \in AllowedDev /\ ~Kept(E, {b}) /\ IsMiddleNew(slots, b)
+                           /\ LET dv == AddDev(slots, b) IN
+                              /\ lost' = lost \cup {HeightOf(x) : x \in (Content(slots) \cup {b}) \ Content(dv)}
+                              /\ KeptL(E, Content(dv), lost')
+                              /\ IsSuffix(HeightsSeq(SlotsOf(E)), HeightsSeq(dv))
                            /\ UseDev("Dev_CacheAddMiddle")
              /\ Common(E, infl', lost')
           /\ Adopt(E)
 
-\* ---- a confirm arrives
+\* ---- a confirm arrives: stored with its block if the chain has it, else cached
 TConfirm == /\ Ev("Deliver") /\ E.a[1][1] = "C"
             /\ LET h == E.a[1][2]  d == E.a[1][3] IN
                /\ Take(E.a[1]) /\ UNCHANGED <<seenT, lost>>
-               /\ E.pool = pool /\ HasOf(E) = has /\ Kept(E, {})
-               /\ IF h \in has THEN SigRel(E, <<h, d>>) /\ CcRel(E, <<>>)      \* block known: stored with the block
-                               ELSE SigRel(E, <<>>) /\ CcRel(E, <<h, d>>)      \* early: cached
+               /\ E.pool = pool /\ NewOK(E, 0) /\ Kept(E, {})
+               /\ SigRel(E, <<h, d>>) /\ CcRel(E, IF h \in has THEN <<>> ELSE <<h, d>>)
                /\ Common(E, infl', lost)
             /\ Adopt(E)
 
 \* ---- a transaction batch arrives
 TTxs == /\ Ev("Deliver") /\ E.a[1][1] = "T"
         /\ Take(E.a[1]) /\ seenT' = TRUE /\ UNCHANGED lost
-        /\ HasOf(E) = has /\ SigRel(E, <<>>) /\ Kept(E, {}) /\ CcRel(E, <<>>)
+        /\ NewOK(E, 0) /\ SigRel(E, <<>>) /\ Kept(E, {}) /\ CcRel(E, <<>>)
         /\ E.valid = nt
         /\ \/ ToSet(E.pool) = 1..nt /\ Len(E.pool) = nt                       \* every valid tx pending exactly once
            \/ /\ "Dev_TxsLoopVar" \in AllowedDev /\ ~(ToSet(E.pool) = 1..nt /\ Len(E.pool) = nt)
@@ -122,18 +131,15 @@ TTxs == /\ Ev("Deliver") /\ E.a[1][1] = "T"
 \* ---- the network duplicates a message in flight: the node sees nothing
 TDuplicate == /\ Ev("Duplicate")
               /\ E.a[1] \in DOMAIN infl /\ infl[E.a[1]] > 0 /\ infl' = [infl EXCEPT ![E.a[1]] = @ + 1] /\ UNCHANGED <<seenT, lost>>
-              /\ E.pool = pool /\ HasOf(E) = has /\ SigRel(E, <<>>) /\ Kept(E, {}) /\ CcRel(E, <<>>)
-              /\ Content(SlotsOf(E)) = Content(slots)
+              /\ E.pool = pool /\ NewOK(E, 0) /\ SigRel(E, <<>>) /\ Kept(E, {}) /\ CcRel(E, <<>>)
               /\ Common(E, infl', lost)
               /\ Adopt(E)
 
-\* ---- the queue timer: cached blocks whose parent is known move into the chain (possibly several generations in one firing)
+\* ---- the queue timer has fired as often as needed: no cached block has a known parent any more
 TDrain == /\ Ev("TimerDrain") /\ UNCHANGED <<infl, seenT, lost>>
           /\ E.pool = pool
-          /\ \A h \in HasOf(E) \ has : Bid(h) \in Content(slots)                                  \* only cached blocks are inserted
-          /\ \A b \in Content(slots) : Known(has, HeightOf(b) - 1) => HeightOf(b) \in HasOf(E) /\ b \notin Content(SlotsOf(E))
           /\ NoInsertable(E)
-          /\ SigRel(E, <<>>) /\ Kept(E, {}) /\ CcRel(E, <<>>)
+          /\ NewOK(E, 0) /\ SigRel(E, <<>>) /\ Kept(E, {}) /\ CcRel(E, <<>>)
           /\ Common(E, infl, lost)
           /\ Adopt(E)
 
